@@ -432,4 +432,37 @@ Example C16_cloud_unreported_commit_refuted :
             lookup kB (local (fst (c_commit (c_run Debug sid0 ops)))) = Some (0, vY).
 Proof. eexists. vm_compute. repeat split. Qed.
 
+(** * The version rule of the memory store is the source's *)
+From Coq Require Import String.
+From Coq Require Import List.
+From VLS Require Base.Rust Gen.KvvGen Proofs.KvvGenProofs.
+
+(** MemoryKVVStore::put_with_version, ::get_version, ::put and ::delete (vls-persist/src/kvv/memory.rs, whole
+    bodies, translated on every run into Gen/KvvGen.v: the lock of the map, `data.get(key)`,
+    `if let Some((ver, val)) = existing`, the `<` / `==` / `!=` tests with their early returns, `data.insert`,
+    `get_version(key)?.map(|v| v + 1).unwrap_or(0)` in the arithmetic of the build profile) are the model's
+    [m_pwv] / [version_of] / [m_put] (Delete = put of the empty value), on every store, key, version and value:
+    an accepted call leaves exactly the model's store, a refusal is Err(Error::VersionMismatch) where the model
+    says RErr, a panic where it says RAbort ([of_mres]); a call that is not accepted leaves the model's store as
+    it was - the translator refuses a function that writes before it returns an error. *)
+Theorem C16_mem_version_rule_is_source :
+  forall (prof : profile) (s : store) (k : key) (ver : N) (val : value),
+    KvvGen.gen_MemoryKVVStore_put_with_version prof (KvvGen.mk_MemoryKVVStore s) k ver val =
+      KvvGenProofs.of_mres (m_pwv s k ver val) /\
+    KvvGen.gen_MemoryKVVStore_get_version prof (KvvGen.mk_MemoryKVVStore s) k = Val (Rust.OkR (version_of s k)) /\
+    KvvGen.gen_MemoryKVVStore_put prof (KvvGen.mk_MemoryKVVStore s) k val = KvvGenProofs.of_mres (m_put prof s k val) /\
+    KvvGen.gen_MemoryKVVStore_delete prof (KvvGen.mk_MemoryKVVStore s) k = KvvGenProofs.of_mres (m_put prof s k []) /\
+    (snd (m_pwv s k ver val) <> ROk -> fst (m_pwv s k ver val) = s) /\
+    (snd (m_put prof s k val) <> ROk -> fst (m_put prof s k val) = s).
+Proof.
+  intros. repeat split.
+  - apply KvvGenProofs.gen_pwv_is_model.
+  - apply KvvGenProofs.gen_get_version_is_model.
+  - apply KvvGenProofs.gen_put_is_model.
+  - apply KvvGenProofs.gen_delete_is_model.
+  - apply KvvGenProofs.m_pwv_refusal_keeps.
+  - apply KvvGenProofs.m_put_refusal_keeps.
+Qed.
+Print Assumptions C16_mem_version_rule_is_source.
+
 Check C16_disk_refines_mem.
